@@ -25,7 +25,7 @@ RULE = ('cases = random state trees (depth <= 3, parallel inside parallel allowe
 ASSUMPTIONS = ['callbacks do not raise and do not trigger (C04/C05)', 'async classes: C07',
                'destinations of locally declared transitions are relative to the declaring state']
 THEOREMS = ['C03_deepest_active_ancestor', 'C03_exit_set', 'C03_exit_set_reachable', 'C03_exit_below_base', 'C03_enter_set',
-            'C03_enter_below_base', 'C03_frame', 'C03_transition_trace', 'C03_offers', 'C03_innermost_first', 'C03_result_iff', 'C03_invalid_iff_undeclared', 'C03_undeclared_is_invalid', 'C03_no_internal_error', 'C03_initial_good', 'C03_history_no_internal_error', 'C03_quiet_offer_order', 'C03_quiet_trigger_order',
+            'C03_enter_below_base', 'C03_frame', 'C03_transition_trace', 'C03_offers', 'C03_innermost_first', 'C03_result_iff', 'C03_invalid_iff_undeclared', 'C03_undeclared_is_invalid', 'C03_no_internal_error', 'C03_initial_good', 'C03_history_no_internal_error', 'C03_no_internal_error_reachable', 'C03_quiet_offer_order', 'C03_quiet_trigger_order',
             'C03_mixed_scope_refuted']
 
 
